@@ -30,19 +30,24 @@ fn hex(b: &[u8]) -> String { b.iter().map(|x| format!("{:02x}", x)).collect() }
 fn unhex(h: &str) -> Vec<u8> { (0..h.len() / 2).map(|i| u8::from_str_radix(&h[2 * i..2 * i + 2], 16).unwrap()).collect() }
 
 type A = (usize, usize, String, u128);
-fn chk(c: &mut Ctx, segs: &[(char, Vec<u8>)], attrs: &[A], subst: &[(usize, usize)]) {
+type M = (usize, usize, (usize, usize), (usize, usize));
+fn chk(c: &mut Ctx, segs: &[(char, Vec<u8>)], attrs: &[A], subst: &[(usize, usize)], moves: &[M]) {
     c.evaluated += 1;
     let input = format!("{};{};{}", segs.iter().map(|(o, d)| format!("{}:{}", o, hex(d))).collect::<Vec<_>>().join(" "),
         attrs.iter().map(|a| format!("{}-{}-{}-{}", a.0, a.1, a.2, a.3)).collect::<Vec<_>>().join(" "),
-        subst.iter().map(|r| format!("{}-{}", r.0, r.1)).collect::<Vec<_>>().join(" "));
+        subst.iter().map(|r| format!("{}-{}", r.0, r.1)).collect::<Vec<_>>().join(" "))
+        + &format!(";{}", moves.iter().map(|m| format!("{}-{}-{}-{}-{}-{}", m.0, m.1, m.2.0, m.2.1, m.3.0, m.3.1)).collect::<Vec<_>>().join(" "));
     let diffs: Vec<ByteDiff> = segs.iter().map(|(o, d)| ByteDiff::new(match o { 'E' => ByteDiffOp::Equal, 'D' => ByteDiffOp::Delete, _ => ByteDiffOp::Insert }, d)).collect();
     let old: Vec<Attribution> = attrs.iter().map(|a| Attribution::new(a.0, a.1, a.2.clone(), a.3)).collect();
     let t = AttributionTracker { config: AttributionConfig { move_lines_threshold: 3 } };
     let cur = "CUR"; let ts = 1000u128;
-    let res = guarded(|| t.transform_attributions(&diffs, &old, cur, &[], &[], ts, subst));
+    let (_dels, inss) = t.build_diff_catalog(&diffs);
+    let mappings: Vec<MoveMapping> = moves.iter().map(|m| MoveMapping { deletion_idx: m.0, insertion_idx: m.1, source_range: m.2, target_range: m.3 }).collect();
+    let res = guarded(|| t.transform_attributions(&diffs, &old, cur, &inss, &mappings, ts, subst));
     let out = match res { Ok(v) => v, Err(p) => { c.fail("region_ta_equal", "safety", input, p, "no panic".into()); return; } };
     let got: Vec<A> = out.iter().map(|a| (a.start, a.end, a.author_id.clone(), a.ts)).collect();
     let (mut op, mut np) = (0usize, 0usize);
+    let mut ins_idx = 0usize;
     let new_len: usize = segs.iter().filter(|s| s.0 != 'D').map(|s| s.1.len()).sum();
     for g in &got { if g.1 > new_len || g.0 > g.1 { c.fail("region_ta_equal", "in_segment", input.clone(), format!("{:?}", g), format!("inside [0,{}]", new_len)); return; } }
     for (o, d) in segs {
@@ -67,7 +72,18 @@ fn chk(c: &mut Ctx, segs: &[(char, Vec<u8>)], attrs: &[A], subst: &[(usize, usiz
                 op += len; np += len;
             }
             'D' => { op += len; }
+            _ if moves.iter().any(|m| m.1 == ins_idx) => {
+                // moved insertion: bytes not targeted by any move must be covered by the reporting author, targeted bytes must not
+                for x in 0..len {
+                    let moved = moves.iter().any(|m| m.1 == ins_idx && m.3.0 <= x && x < m.3.1);
+                    let filled = got.iter().any(|g| g.2 == cur && g.0 <= np + x && np + x < g.1);
+                    if moved == filled { c.fail("region_ta_insert_moved", "ensures#5", input.clone(), format!("{:?}", got), format!("byte {} of the insertion at {} {} be credited to the reporting author", x, np, if moved { "must not" } else { "must" })); return; }
+                }
+                for g in &got { if g.2 == cur && g.0 >= np && g.0 < np + len.max(1) && !(g.0 < g.1 && g.1 <= np + len) && g.0 != g.1 { c.fail("region_ta_insert_moved", "ensures#4", input.clone(), format!("{:?}", g), format!("non-empty range inside {}..{}", np, np + len)); return; } }
+                np += len; ins_idx += 1;
+            }
             _ => {
+                ins_idx += 1;
                 let cover: Vec<&A> = got.iter().filter(|g| g.0 == np && g.1 == np + len && g.0 < g.1).collect();
                 if len > 0 && cover.len() != 1 { c.fail("region_ta_insert", "ensures#6", input.clone(), format!("{:?}", got), format!("exactly one range {}..{}", np, np + len)); return; }
                 let nl = d.contains(&b'\n');
@@ -92,7 +108,17 @@ fn gen_case(g: &mut Rng, c: &mut Ctx) {
     for (o, d) in &segs { if *o == 'I' && d.iter().any(|b| !b" \n\t".contains(b)) && g.below(4) != 0 { subst.push((np, np + d.len())); } if *o != 'D' { np += d.len(); } }
     let mut merged: Vec<(usize, usize)> = vec![];
     for r in subst { if let Some(l) = merged.last_mut() { if r.0 <= l.1 { l.1 = l.1.max(r.1); continue; } } merged.push(r); }
-    chk(c, &segs, &attrs, &merged);
+    let dlens: Vec<usize> = segs.iter().filter(|s| s.0 == 'D').map(|s| s.1.len()).collect();
+    let ilens: Vec<usize> = segs.iter().filter(|s| s.0 == 'I').map(|s| s.1.len()).collect();
+    let mut moves: Vec<M> = vec![];
+    if !dlens.is_empty() && !ilens.is_empty() && g.below(3) == 0 {
+        for _ in 0..(1 + g.below(2)) {
+            let d = g.below(dlens.len() as u64) as usize; let i = g.below(ilens.len() as u64) as usize;
+            let n = 1 + g.below(dlens[d].min(ilens[i]).max(1) as u64) as usize;
+            if n <= dlens[d] && n <= ilens[i] { let so = g.below((dlens[d] - n + 1) as u64) as usize; let to = g.below((ilens[i] - n + 1) as u64) as usize; moves.push((d, i, (so, so + n), (to, to + n))); }
+        }
+    }
+    chk(c, &segs, &attrs, &merged, &moves);
 }
 fn main() {
     std::panic::set_hook(Box::new(|_| {}));
@@ -106,7 +132,8 @@ fn main() {
         let segs: Vec<(char, Vec<u8>)> = p[0].split_whitespace().map(|t| (t.chars().next().unwrap(), unhex(&t[2..]))).collect();
         let attrs: Vec<A> = p[1].split_whitespace().map(|t| { let q: Vec<&str> = t.split('-').collect(); (q[0].parse().unwrap(), q[1].parse().unwrap(), q[2].to_string(), q[3].parse().unwrap()) }).collect();
         let subst: Vec<(usize, usize)> = p.get(2).unwrap_or(&"").split_whitespace().map(|t| { let q: Vec<usize> = t.split('-').map(|y| y.parse().unwrap()).collect(); (q[0], q[1]) }).collect();
-        chk(&mut c, &segs, &attrs, &subst);
+        let moves: Vec<M> = p.get(3).unwrap_or(&"").split_whitespace().map(|t| { let q: Vec<usize> = t.split('-').map(|y| y.parse().unwrap()).collect(); (q[0], q[1], (q[2], q[3]), (q[4], q[5])) }).collect();
+        chk(&mut c, &segs, &attrs, &subst, &moves);
     }
     println!("DONE evaluated={}", c.evaluated);
 }
